@@ -23,7 +23,7 @@ RULE = (
     'loader), abandoned and restored in a fresh loop (possibly twice in a row).  Non-trivial = the chain has >= 2 steps '
     'and carries an argument, keyword argument or resume value; distinct = distinct event-log digest.'
 )
-BUDGET = {'quick': (40000, 55), 'thorough': (3_000_000, 600)}
+BUDGET = {'quick': (100000, 55), 'thorough': (3_000_000, 600)}
 COMPONENTS = {
     'real': common.COMPONENTS['real'] + ['plumpy.persistence (Bundle, Savable, auto_persist, SavableFuture)',
                                           'plumpy.loaders', 'pickle', 'PyYAML'],
